@@ -36,10 +36,37 @@ let tbody (_ : int) (_ : n list) (box : n list) : n list option =
 let cands _ _ = [1; 2]
 let tsig (b : n list) : n = List.fold_left (fun a x -> xb_nadd (xb_nmul a (nb 256)) x) N0 b
 
+(* Management lines:  S <transport> <entries>  (server started with this user list)
+                      U <transport> <entries>  (the operator published this list: SetServerUsers)
+   entries = "none" or space separated  key:name:present:password:hashed  (hex, "-" = empty).
+   Printed: the generation in force according to model/UserTable.v  published init history  =  compile_users of the
+   LAST list, as  users=<n> <name hex>:<P | H<credential hex>> ...  (P: credential = HashPassword(password, name)). *)
+let toyhash (pw : n list) (name : n list) : n list = (nb 255) :: pw @ [nb 0] @ name
+let parse_entry (tok : string) : entry =
+  match String.split_on_char ':' tok with
+  | [k; nm; pr; pw; hs] ->
+    { e_key = bytes_of_hex k; e_name = bytes_of_hex nm; e_present = (pr = "1"); e_password = bytes_of_hex pw; e_hashed = bytes_of_hex hs }
+  | _ -> failwith ("bad entry " ^ tok)
+let histories : (string, entry list * entry list list) Hashtbl.t = Hashtbl.create 4
+let render_table (last : entry list) (us : cuser list) : string =
+  let one (u : cuser) =
+    let by_pw = List.exists (fun e -> e.e_present && e.e_name = u.c_name && e.e_hashed = [] && toyhash e.e_password e.e_name = u.c_cred) last in
+    let nm = if u.c_name = [] then "-" else hex_of_bytes u.c_name in
+    Printf.sprintf " %s:%s" nm (if by_pw then "P" else "H" ^ (if u.c_cred = [] then "" else hex_of_bytes u.c_cred)) in
+  Printf.sprintf "users=%d%s" (List.length us) (String.concat "" (List.map one us))
+
 let () =
   let cases = open_in Sys.argv.(1) in
   iter_lines cases (fun line ->
     match split_ws line with
+    | tag :: transport :: toks when tag = "S" || tag = "U" ->
+      let es = if toks = ["none"] then [] else List.map parse_entry toks in
+      let (init, h) =
+        if tag = "S" then (es, [])
+        else (match Hashtbl.find_opt histories transport with Some (i, h) -> (i, h @ [es]) | None -> ([], [es])) in
+      Hashtbl.replace histories transport (init, h);
+      let last = (match List.rev h with l :: _ -> l | [] -> init) in
+      print_endline (render_table last (published toyhash init h))
     | _tag :: transport :: _kind :: len :: _field :: hdr :: opens :: ts :: dup :: rest ->
       let len = int_of_string len and opens = (opens = "1") and dup = (dup = "1") in
       let sid = (match rest with s :: _ -> int_of_string s | [] -> 7) in
